@@ -1654,6 +1654,10 @@ class Exec:
         for p, v in zip(ps, vals):
             newenv[p['id']] = v
             st.names[p['id']] = p.get('name', '')
+        # a caller's local handed over by reference stays reachable under its own declaration id (and is copied back afterwards)
+        byref = [v.vid for v in vals if isinstance(v, LVar) and v.vid in saved_env]
+        for vid_ in byref:
+            newenv.setdefault(vid_, saved_env[vid_])
         if objn is not None:
             o = self.ev_obj(objn, st)
             if not isinstance(o, ObjRef):
@@ -1678,7 +1682,19 @@ class Exec:
             if res is None:
                 res, rv = s, v
             else:
-                raise ExtractionError(f'inline {q}: multiple return paths not supported')
+                # several return paths: mutually exclusive; the earlier one (res) applies under what its path condition adds to the
+                # common prefix of the two, the later one otherwise
+                k_ = 0
+                while k_ < len(res.pc) and k_ < len(s.pc) and res.pc[k_] is s.pc[k_]:
+                    k_ += 1
+                extra = res.pc[k_:]
+                if not extra:
+                    raise ExtractionError(f'inline {q}: return paths cannot be told apart')
+                disc = z3.And(*extra) if len(extra) > 1 else extra[0]
+                mv = merge_val(disc, rv, v) if not (isinstance(rv, VoidV) and isinstance(v, VoidV)) else rv
+                if mv is None:
+                    raise ExtractionError(f'inline {q}: return values of different paths not mergeable')
+                res, rv = merge_states(disc, res, s), mv
         if res is None:
             raise ExtractionError(f'inline {q}: no return path')
         # adopt resulting state
@@ -1688,6 +1704,9 @@ class Exec:
             for k_, v_ in res.env.items():
                 if k_ in saved_env:
                     saved_env[k_] = v_
+        for vid_ in byref:
+            if vid_ in res.env:
+                saved_env[vid_] = res.env[vid_]
         st.env = saved_env
         return rv
 
